@@ -69,6 +69,40 @@ class UnitResult:
     cmd: str = ""
     stderr_tail: str = ""
     prop: str = ""
+    callers: Dict[str, List[str]] = field(default_factory=dict)   # fn qual -> quals of the unit's functions that call it (transitively)
+
+
+def call_graph(b, text: str) -> Dict[str, List[str]]:
+    """Over-approximated call graph of the generated unit: G calls F if F's name occurs in G's text followed by `(` (functions that
+    share a name, e.g. several `try_from`, are all taken).  Returns, per function, everything that reaches it (transitively)."""
+    lines = text.split("\n")
+    fr = [f for f in b.fn_ranges if f.get("kind", "fn") in ("fn", "leaf")]
+    direct = {f["qual"]: set() for f in fr}          # callee -> callers
+    for g in fr:
+        body = "\n".join(lines[g["lo"] - 1:g["hi"]])
+        for f in fr:
+            if f is g:
+                continue
+            if re.search(r"(?<![A-Za-z0-9_])" + re.escape(f["name"]) + r"\s*\(", body):
+                direct[f["qual"]].add(g["qual"])
+    # convenience conversions reach `from` / `try_from` bodies without naming them
+    for g in fr:
+        body = "\n".join(lines[g["lo"] - 1:g["hi"]])
+        if re.search(r"\.(try_)?into\(\)|From::from\(", body):
+            for f in fr:
+                if f is not g and f["name"] in ("from", "try_from"):
+                    direct[f["qual"]].add(g["qual"])
+    reach = {}
+    for f in direct:
+        seen, todo = set(), list(direct[f])
+        while todo:
+            x = todo.pop()
+            if x in seen:
+                continue
+            seen.add(x)
+            todo += list(direct.get(x, ()))
+        reach[f] = sorted(seen)
+    return reach
 
 
 def _run_verus(path: str, timeout: int, extra: List[str]) -> tuple:
@@ -161,6 +195,10 @@ def run_unit(spec_path: str, repo: str, libdir: str, outdir: str, timeout: int =
         return res
     open(gen, "w").write(text)
     res.report = b.rep
+    try:
+        res.callers = call_graph(b, text)
+    except Exception:
+        res.callers = {}
     res.assumptions = scan_assumptions(text)
     # registered assumptions of this unit (contracts/<unit>.assumptions, committed): anything new makes the unit undecided
     reg = os.path.join(os.path.dirname(spec_path), u.name + ".assumptions")
